@@ -2082,8 +2082,14 @@ fn scenario_resync_interleave() -> Result<Violations, String> {
             if let Some(snd) = &member.sender { let _ = snd.clone().try_send(line); }
         }
     }
-    std::thread::sleep(std::time::Duration::from_millis(400));
-    let link = drain(&mut mr);
+    // wait (up to 10 s - the machine may be busy) until the synchronisation has been served: its last line is the snapshot request
+    let mut link: Vec<String> = vec![];
+    for _ in 0..100 {
+        std::thread::sleep(std::time::Duration::from_millis(100));
+        link.extend(drain(&mut mr));
+        if link.iter().any(|m| m.starts_with("replicate-snapshot")) { break; }
+    }
+    if !link.iter().any(|m| m.starts_with("replicate-snapshot")) { return Err("the supervisor did not serve the synchronisation in time".into()); }
     let about_k: Vec<&String> = link.iter().filter(|m| m.contains("replicate d k ")).collect();
     if std::env::var("VERIF_TRACE").is_ok() { eprintln!("on the joiner's link: {:?}", link); }
     // the synchronisation was served, and the last thing the joiner is told about k is the value the primary holds
@@ -2156,6 +2162,7 @@ fn scenario_election(sc: &str) -> Result<Violations, String> {
     };
     let d2 = dbs.clone();
     let mut rep_seen: Vec<String> = vec![];
+    let mut yield_too_late = false;
     let ok = if p[1] == "2r" {
         let d3 = dbs.clone();
         let h = std::thread::spawn(move || catch_unwind(AssertUnwindSafe(|| run(&d3))).is_ok());
@@ -2164,7 +2171,10 @@ fn scenario_election(sc: &str) -> Result<Violations, String> {
             for m in drain(&mut rep) {
                 let parts: Vec<&str> = m.splitn(3, ' ').collect();
                 if parts.len() == 3 && parts[0] == "rp" { if let Ok(id) = parts[1].parse::<u64>() { d2.register_pending_opp(id, parts[2].to_string(), &"other:1".to_string());
-                    if yielding && parts[2].contains("election candidate") { std::thread::sleep(std::time::Duration::from_millis(4)); election_eval(&d2, 1, &"older:1".to_string()); } } }
+                    if yielding && parts[2].contains("election candidate") { std::thread::sleep(std::time::Duration::from_millis(4));
+                        // (on a busy machine the node may already have timed out and claimed before the older candidacy is delivered: then the scenario says nothing)
+                        if d2.get_role() != ClusterRole::StartingUp { yield_too_late = true; }
+                        election_eval(&d2, 1, &"older:1".to_string()); } } }
                 rep_seen.push(m);
             }
             if h.is_finished() { break; }
@@ -2195,6 +2205,7 @@ fn scenario_election(sc: &str) -> Result<Violations, String> {
             chk(&mut v, "C07.told-primary-is-secondary", role == ClusterRole::Secoundary && sup_msgs.iter().any(|m| m == "primary other:1") && candidacies == 0);
         }
     } else if yielding {
+        if yield_too_late { return Err("the older candidacy was delivered after the node had already decided (busy machine): inconclusive".into()); }
         chk(&mut v, "C07.older-candidate-wins", role == ClusterRole::Secoundary && !sup_msgs.iter().any(|m| m == "election-win self"));
         chk(&mut v, "C07.yielded-candidate-does-not-claim", role == ClusterRole::Secoundary && !sup_msgs.iter().any(|m| m == "election-win self"));
     } else if forced || cand > own {
@@ -2689,7 +2700,7 @@ fn family_props(fam: &str) -> &'static [&'static str] {
 fn main() {
     std::panic::set_hook(Box::new(|_| {}));
     // the election wait loops poll every 2 ms up to this timeout (lazy_static, read once): keep the two-member scenarios short, but long enough for the helper thread of the `2r` variant to register the candidacy under load
-    if std::env::var("NUN_ELECTION_TIMEOUT").is_err() { std::env::set_var("NUN_ELECTION_TIMEOUT", "30"); }
+    if std::env::var("NUN_ELECTION_TIMEOUT").is_err() { std::env::set_var("NUN_ELECTION_TIMEOUT", "60"); }
     // the oplog rolls over to a new file after 20 records (lazy_static, read once): the families that write more than that exercise the rotation
     if std::env::var("NUN_MAX_OP_LOG_SIZE").is_err() { std::env::set_var("NUN_MAX_OP_LOG_SIZE", "5000"); }
     if std::env::var("NUN_DBS_DIR").is_err() {
